@@ -114,7 +114,7 @@ def render_xta(m, preamble=PREAMBLE):
         if urg:
             out.append("  urgent " + ", ".join(urg) + ";\n")
         if t["init"]:
-            out.append("  init %s;\n" % name[t["init"]])
+            out.append("  init %s;\n" % name.get(t["init"], t["init"]))
         if t["edges"]:
             es = []
             for e in t["edges"]:
@@ -130,7 +130,7 @@ def render_xta(m, preamble=PREAMBLE):
                     parts.append("assign %s;" % e["asg"])
                 if e["prob"]:
                     parts.append("probability %s;" % e["prob"])
-                es.append("    %s %s %s { %s }" % (name[e["src"]], arrow, name[e["dst"]], " ".join(parts)))
+                es.append("    %s %s %s { %s }" % (name.get(e["src"], e["src"]), arrow, name.get(e["dst"], e["dst"]), " ".join(parts)))
             out.append("  trans\n" + ",\n".join(es) + ";\n")
         out.append("}\n")
     out.append(system_text(m) + "\n")
